@@ -52,6 +52,30 @@ def seqno_args(fn, t):
     return out
 
 
+KS_READS = ("get", "contains_key", "size_of", "iter", "range", "prefix", "len", "is_empty", "first_key_value", "last_key_value", "approximate_len")
+
+
+def view_delegation(ctx, rule, view_fns=None):
+    """a frozen view never answers a read through the keyspace's own read API (Keyspace::iter & co. open a FRESH snapshot,
+    Keyspace::get & co. read the latest state): inside the Readable methods of Snapshot / BaseTransaction every tree read
+    is the direct one at the view's instant (shared with C06: R-C06.5)"""
+    F = ctx.F
+    if view_fns is None:
+        view_fns = [f for fid, f in F.fns.items() if f.d.get("trait") == "readable::Readable" and f.d.get("self_ty") in ("snapshot::Snapshot", "tx::write_tx::BaseTransaction")]
+    for fn in view_fns:
+        bodies = [fn] + F.closures_of(fn.id)
+        bad = []
+        for f2 in bodies:
+            for b, t in f2.calls():
+                n = A.cname(t)
+                if n.startswith("keyspace::Keyspace::") and n.rsplit("::", 1)[-1] in KS_READS:
+                    bad.append((f2, b, n))
+        ctx.ob(rule, fn, "view-does-not-delegate-to-latest-state-reads", not bad,
+               "reads only through the tree at the view's own instant" if not bad
+               else "the view answers through %s, which reads at a fresh snapshot / the latest state instead of the view's instant: the view is not frozen and can see one half of a batch in a scan and the other half not in a point read" % bad[0][2],
+               bad[0][0].loc(bad[0][1]) if bad else "", nontrivial=bool(bad))
+
+
 def run(ctx):
     F = ctx.F
     cg = ctx.cg
@@ -189,6 +213,8 @@ def run(ctx):
             ctx.ob("R-C05.2", fn, "tree-%s-at-self.nonce.instant" % A.cname(t).rsplit("::", 1)[-1], ok,
                    "tree read at %s" % ", ".join(A.tstr(og.of_operand(x)) for x in sa) + ("" if ok else " — not the view's own snapshot instant"), fn.loc(b))
     ctx.floor("R-C05.2", "tree reads inside views", nreads, 12)
+
+    view_delegation(ctx, "R-C05.2", view_fns)
 
     # ---- R-C05.3 views own their registration
     for adt, ctor in (("iter::Iter", "iter::Iter::new"), ("snapshot::Snapshot", "snapshot::Snapshot::new"), ("tx::write_tx::BaseTransaction", "tx::write_tx::BaseTransaction::new")):
